@@ -625,7 +625,9 @@ void format_data(
     }
   }
 
-  uint64_t end_address = start_address + total_size;
+  // The last byte's address is used (instead of the end address) so that
+  // ranges ending at the top of the address space are handled correctly
+  uint64_t last_address = start_address + total_size - 1;
 
   int width_digits;
   if (flags & PrintDataFlags::OFFSET_8_BITS) {
@@ -636,11 +638,11 @@ void format_data(
     width_digits = 8;
   } else if (flags & PrintDataFlags::OFFSET_64_BITS) {
     width_digits = 16;
-  } else if (end_address > 0x100000000) {
+  } else if (last_address >= 0x100000000) {
     width_digits = 16;
-  } else if (end_address > 0x10000) {
+  } else if (last_address >= 0x10000) {
     width_digits = 8;
-  } else if (end_address > 0x100) {
+  } else if (last_address >= 0x100) {
     width_digits = 4;
   } else {
     width_digits = 2;
@@ -672,14 +674,20 @@ void format_data(
   size_t current_iov_bytes = 0;
   size_t prev_iov_index = 0;
   size_t prev_iov_bytes = 0;
-  for (uint64_t line_start_address = start_address & (~0x0F);
-       line_start_address < end_address;
-       line_start_address += 0x10) {
+  // Lines are tracked by their offset from the first line's address, so the
+  // loop terminates even if the last line ends at 2^64
+  uint64_t first_line_address = start_address & (~0x0F);
+  uint64_t start_offset = start_address - first_line_address;
+  uint64_t end_offset = start_offset + total_size;
+  for (uint64_t line_start_offset = 0;
+       line_start_offset < end_offset;
+       line_start_offset += 0x10) {
 
     // Figure out the boundaries of the current line
-    uint64_t line_end_address = line_start_address + 0x10;
-    uint8_t line_invalid_start_bytes = max<int64_t>(start_address - line_start_address, 0);
-    uint8_t line_invalid_end_bytes = max<int64_t>(line_end_address - end_address, 0);
+    uint64_t line_start_address = first_line_address + line_start_offset;
+    uint64_t line_end_offset = line_start_offset + 0x10;
+    uint8_t line_invalid_start_bytes = (line_start_offset < start_offset) ? (start_offset - line_start_offset) : 0;
+    uint8_t line_invalid_end_bytes = (line_end_offset > end_offset) ? (line_end_offset - end_offset) : 0;
     uint8_t line_bytes = 0x10 - line_invalid_end_bytes - line_invalid_start_bytes;
 
     auto print_fields_column = [&]<typename LoadedDataT, typename StoredDataT>(
@@ -739,7 +747,7 @@ void format_data(
       }
     }
 
-    if (collapse_zero_lines && (line_start_address > start_address) && (line_end_address < end_address) &&
+    if (collapse_zero_lines && (line_start_offset > start_offset) && (line_end_offset < end_offset) &&
         !memcmp(line_buf, "\0\0\0\0\0\0\0\0\0\0\0\0\0\0\0\0", 16) &&
         !memcmp(prev_line_data, "\0\0\0\0\0\0\0\0\0\0\0\0\0\0\0\0", 16)) {
       continue;
